@@ -74,6 +74,8 @@ structure St where
   forgets : Nat           -- ghost: accounts the CA has forgotten
   delKeyFaults : Nat      -- ghost: failed deletions of the key file in the recreate path
   dneAns : Nat → Bool     -- ghost: the CA has answered account-does-not-exist for a
+  regW : Nat → Bool       -- ghost: a Store of a's registration has succeeded at some time
+  keyW : Nat → Bool       -- ghost: a Store of a's private key has succeeded at some time
 
 def upd (f : Nat → PC) (p : Nat) (v : PC) : Nat → PC := fun q => if q = p then v else f q
 
@@ -159,13 +161,13 @@ def step (s : St) : Ev → Option St
   | .saveReg p ok =>
     match s.pc p with
     | .saveReg k =>
-      if ok = true then some { s with reg := some k, pc := upd s.pc p (.saveKey k s.reg) }
+      if ok = true then some { s with reg := some k, pc := upd s.pc p (.saveKey k s.reg), regW := updB s.regW k true }
       else some { s with pc := upd s.pc p (.release none), faults := s.faults + 1 }
     | _ => none
   | .saveKey p ok =>
     match s.pc p with
     | .saveKey k prev =>
-      if ok = true then some { s with key := some k, pc := upd s.pc p (.release (some (k, k))) }
+      if ok = true then some { s with key := some k, pc := upd s.pc p (.release (some (k, k))), keyW := updB s.keyW k true }
       else some { s with pc := upd s.pc p (.rollback k prev), faults := s.faults + 1 }
     | _ => none
   | .rollback p ok =>
@@ -231,7 +233,8 @@ def step (s : St) : Ev → Option St
 
 def init : St :=
   { lock := none, reg := none, key := none, ca := fun _ => false, pc := fun _ => .idle, nextKey := 0
-    registers := 0, faults := 0, forgets := 0, delKeyFaults := 0, dneAns := fun _ => false }
+    registers := 0, faults := 0, forgets := 0, delKeyFaults := 0, dneAns := fun _ => false
+    regW := fun _ => false, keyW := fun _ => false }
 
 /-- the trace validator: a history is a run iff every event is enabled in turn -/
 def run (s : St) : List Ev → Option St
